@@ -43,6 +43,31 @@ def digest_values(p, thorough):
     return vals
 
 
+def multi_digest_values(p):
+    """digests that differ from the stored one in two or more bytes, chosen so that aggregate comparisons (sums, xor
+    folds, word-wise compares, prefix/suffix compares) cannot tell them from the right one"""
+    d = p.hdigest
+    n = len(d)
+    out = []
+    for i, j in itertools.combinations(range(n), 2):
+        if j - i in (1, 2, 3, 4, 7, 8, 16) or i == 0 or j == n - 1:
+            for delta in (0x01, 0x80, 0xff):
+                x = bytearray(d); x[i] ^= delta; x[j] ^= delta
+                out.append(("xor-pair@%d,%d" % (i, j), bytes(x).hex()))
+            x = bytearray(d); x[i] = (x[i] + 1) & 0xff; x[j] = (x[j] - 1) & 0xff
+            out.append(("sum-pair@%d,%d" % (i, j), bytes(x).hex()))
+            if d[i] != d[j]:
+                x = bytearray(d); x[i], x[j] = x[j], x[i]
+                out.append(("swap@%d,%d" % (i, j), bytes(x).hex()))
+    out.append(("reversed", d[::-1].hex()))
+    out.append(("rotated", (d[1:] + d[:1]).hex()))
+    out.append(("all-xor-ff", bytes(b ^ 0xff for b in d).hex()))
+    for k in (1, 4, 8, n // 2):
+        out.append(("tail-%d-zero" % k, (d[:-k] + bytes(k)).hex()))
+        out.append(("head-%d-zero" % k, (bytes(k) + d[k:]).hex()))
+    return [(nm, v) for nm, v in out if bytes.fromhex(v) != d]
+
+
 def histories(p, thorough):
     ftype = p.htype
     flen = p.header_len
@@ -184,6 +209,11 @@ def run(ctx):
     for name, b in bs:
         p = zckref.parse(b)
         hs = list(histories(p, thorough))
+        # (b2) digests that differ from the stored one in several bytes at once
+        for nm, v in multi_digest_values(p):
+            hs.append([("T", p.htype), ("D", (nm, v)), ("R", None), ("H", None)])
+            if nm.startswith(("swap", "sum-pair")):
+                hs.append([("T", p.htype), ("D", (nm + "-upper", v.upper())), ("L", p.header_len), ("V", None), ("R", None), ("H", None)])
         for ch in core.chunks(hs, 600):
             hargs.append((name, b, ch))
     bmap = dict(bs)
@@ -221,6 +251,7 @@ def run(ctx):
                           {"kind": "pinned", "base": bmap[r["name"]].hex()})
     ctx.sample({"digest_position_sweep": "type pin, then digest with byte 0x3a ':' at position 3, then read lead", "expect": "setter refuses"})
     ctx.bounds = {"bases": [n for n, _ in bs], "digest_positions": "every position x 256 values",
+                  "multi_byte_digests": "xor / sum-preserving pairs, swaps, reversal, rotation, zeroed heads and tails",
                   "history_alphabet": "T{0,1,2,3,4,100,-1} D{ok x3 cases, lengths, non-hex, nibble-off} L{len, len+-1, 0, lead} x orders x V^0..2",
                   "pinned_substitutions": "all 255 at every header byte"}
 
